@@ -36,6 +36,7 @@ type Replay struct {
 	Steps     []StepResult `json:"steps"`
 	Status    string       `json:"status"`
 	Notes     []string     `json:"notes,omitempty"`
+	Gaps      []string     `json:"known_model_gaps,omitempty"`
 }
 
 // FactResult summarises one required fact.
@@ -121,6 +122,9 @@ func RunReport(o Options) *Report {
 				case "known_model_gap":
 					a.gap = true
 				}
+				for _, g := range rp.Gaps {
+					a.remarks = append(a.remarks, "known model gap: "+g)
+				}
 			}
 			if o.Verbose {
 				rep.Lines = append(rep.Lines, fmt.Sprintf("--- %s on %s: %s", tr.Name, transport, rp.Status))
@@ -153,6 +157,9 @@ func RunReport(o Options) *Report {
 		}
 		if r, ok := FactRemarks[f]; ok {
 			fr.Remarks = append(fr.Remarks, r)
+		}
+		if a := facts[f]; a != nil {
+			fr.Remarks = append(fr.Remarks, a.remarks...)
 		}
 		rep.Facts = append(rep.Facts, fr)
 	}
@@ -249,6 +256,7 @@ func replay(tr *Trace, transport string, rep *Report) Replay {
 			}
 			line := fmt.Sprintf("%s step %d (%s): model %s kernel %s -- %s", id, i, st, model[i], kernel[i], st.Gap)
 			rep.KnownModelGaps = append(rep.KnownModelGaps, line)
+			rp.Gaps = append(rp.Gaps, line)
 			rep.Lines = append(rep.Lines, "KNOWN-MODEL-GAP: "+line)
 		default:
 			sr.Status = "MISMATCH"
